@@ -218,12 +218,43 @@ def int_bits(ty):
     return None
 
 
+def id_cells(prog):
+    """(topic-id cell, counter cell): TopicActor.topic_internal_id / TopicActor.next_message_id, or -- when the two were grouped
+    into a small struct owned by the actor (`ids: MessageIdSequence { topic_internal_id, last_issued }`) -- the fields of that
+    struct the MessageId constructor is fed from inside the publish handler"""
+    A = prog.anchors
+    ctr = A.cell("TopicActor", "next_message_id", optional=True)
+    tid = A.cell("TopicActor", "topic_internal_id", optional=True)
+    if ctr is not None and tid is not None:
+        return tid, ctr
+    from actorlib import roles
+    R = roles(prog)
+    mid = A.ty("MessageId")
+    actor_ty = A.ty("TopicActor")
+    owned = {f["ty"].split("<")[0] for v in prog.facts.adt(actor_ty)["variants"] for f in v["fields"] if f["ty"].startswith("crate::")}
+    for cid in prog.cone(R.publish_body(), follow=("call", "closure", "poll")):
+        ci = prog.info(cid)
+        if ci is None:
+            continue
+        for cbb, t in ci.calls(lambda c: (c.target or "").startswith(mid + "::") and (c.local or c.res_local)):
+            if len(t.args) != 2:
+                continue
+            cs = []
+            for a in t.args:
+                o = prog.receiver_origin(ci, a)
+                cells = list(cells_of(prog, ci, o)) or list(upvar_cells(prog, ci, o))
+                cells = [c for c in cells if c[0] in owned or c[0] == actor_ty]
+                cs.append(cells[-1] if cells else None)
+            if cs[0] is not None and cs[1] is not None:
+                return (tid or cs[0]), (ctr or cs[1])
+    return tid, ctr
+
+
 @rule("C09", "R09.3", "message ids are unique: one constructor, fresh counter, never-reused topic id, injective bit layout", floor=5)
 def r09_3(prog, out):
     A = prog.anchors
     mid = A.ty("MessageId")
-    ctr = A.cell("TopicActor", "next_message_id", optional=True)
-    tid = A.cell("TopicActor", "topic_internal_id", optional=True)
+    tid, ctr = id_cells(prog)
     from actorlib import roles
     R = roles(prog)
     pub_cone = set(prog.cone(R.publish_body(), follow=("call", "closure", "poll")))
@@ -248,6 +279,13 @@ def r09_3(prog, out):
             callers += 1
             key = "id-source:%s" % prog.short(cid)
             if cid not in pub_cone:
+                # building an id is allocating one only if the counter moves or a message is stamped with it: a read-only
+                # accessor that re-creates `the last id issued` for a statistic allocates nothing
+                stamps = any((t2.callee.target or "") == A.ty("TopicMessage") + "::publish" for _b2, t2 in ci.calls())
+                moves = any(e.kind == "write" and not e.chain and ctr in cells_of_effect(prog, ci, e) for e in prog.effects(cid))
+                if not stamps and not moves:
+                    out.holds(key, ci.loc(cbb), "re-creates an id for reporting: no counter write, no message stamped", nontrivial=False)
+                    continue
                 out.violation(key, ci.loc(cbb), "message ids are allocated outside the topic actor's publish handler (in %s): allocation is no longer serialised with the "
                               "acceptance of the messages, so ids do not follow the order in which the topic accepted them (and two tasks can race on the counter)" % prog.short(cid))
                 continue
@@ -420,7 +458,7 @@ def bit_layout(prog, out, ctor):
     agg = None
     for blk in b.blocks:
         for s in blk.stmts:
-            if s.k == "assign" and s.rv.k == "agg" and s.rv.j.get("ak") == "adt":
+            if s.k == "assign" and s.rv.k == "agg" and s.rv.j.get("ak") == "adt" and s.rv.ops and s.rv.j.get("adt") == prog.anchors.ty("MessageId") and not s.exp:
                 agg = s
     if agg is None:
         out.undecided(key, prog.loc(ctor), "constructor shape not recognised")
